@@ -275,6 +275,40 @@ def run(P, rep, tier):
                 % (n, len(unchecked), ', '.join(unchecked[:3]))))
     rep.floor('C23.WAKE', 1)
 
+    # ---------------- ROLE: a FIFO obtained from the producer side of a resource hands out *empty* objects, one obtained from the
+    # consumer side hands out *full* ones.  Every svt_get_empty_object / svt_get_full_object(_non_blocking) call is made on a FIFO of
+    # the matching role (role of a member = the getter whose result is stored into it; members with both roles would be reported too).
+    role = {}
+    for g in P.fns:
+        if g.lib not in ('Encoder', 'Common') or g.nocfg:
+            continue
+        for ev in g.events(('st',)):
+            e = ev['e']
+            if e[0] == 'a' and e[1] == '=':
+                r = strip(e[3])
+                while r is not None and r[0] == 'k':
+                    r = strip(r[-1])
+                if r is not None and r[0] == 'c' and callee_name(r) in ('svt_system_resource_get_producer_fifo', 'svt_system_resource_get_consumer_fifo'):
+                    lf = last_field(strip(e[2]))
+                    if lf:
+                        role.setdefault(lf, set()).add('producer' if 'producer' in callee_name(r) else 'consumer')
+    nrole = 0
+    for g in P.fns:
+        if g.lib not in ('Encoder', 'Common') or g.nocfg:
+            continue
+        for ev, nm in g.calls(('svt_get_empty_object', 'svt_get_full_object', 'svt_get_full_object_non_blocking')):
+            lf = last_field(strip(ev['e'][2][0])) if ev['e'][2] else None
+            if lf not in role:
+                continue                      # a FIFO passed in as a parameter: judged at the caller that selects it
+            nrole += 1
+            want = 'producer' if nm == 'svt_get_empty_object' else 'consumer'
+            ok = role[lf] == {want}
+            rep.ob('C23.ROLE', '%s/%s@%d' % (g.name, lf.split('.')[-1], ev['l']), ok, g.loc(ev),
+                   ('%s on %s, a %s FIFO' % (nm, lf.split('.')[-1], want)) if ok else
+                   ('%s asks %s for an %s object, but that member holds the %s side of its resource: the call takes a finished object for an empty one or parks the thread until the other side delivers' %
+                    (g.name, lf.split('.')[-1], 'empty' if want == 'producer' else 'full', '/'.join(sorted(role[lf])))))
+    rep.floor('C23.ROLE', 50)
+
     # ---------------- RELEASE
     who = []
     for f in P.fns:
